@@ -492,10 +492,41 @@ def tailOrd (cols : List (List Cell)) : Nat → Nat → Ord3
     | .le => tailOrd cols k (i + 1)
     | o => o
 
-/-- `_in_index_order(start)` -/
-def Table.inIndexOrder (t : Table) (start : Nat) : Ord3 :=
-  let n := match t.len with | .ok n => n | .error _ => 0
-  tailOrd (t.indexes.map (fun c => match lookupCol t.data c with | .ok b => b | .error _ => [])) (n - (start + 1)) (start + 1)
+def allIn (lo hi : Nat) (p : Nat → Bool) : Bool := (List.range' lo (hi - lo)).all p
+
+/-- `c and c[0] is not None and c[0] is not Missing and c.count(c[0]) == len(c)` for `c = col[lo:hi]`
+(`==`: `MissingType.__eq__(None)` is True and `Missing > x` is True for every `x`, which is why the
+shortcut is not taken when `None` / `Missing` lead) -/
+def constFrom (c : List Cell) (lo hi : Nat) : Bool :=
+  decide (lo < hi) && (cellAt c lo).key != Key.none && (cellAt c lo).key != Key.missing &&
+  allIn lo hi (fun x => pyEq (cellAt c lo) (cellAt c x))
+
+/-- `all(map(is_, last, sorted(last)))` for `last = col[lo:hi]`: `sorted` is stable, so it returns the
+very same objects in the very same places exactly when no later cell is smaller than an earlier one;
+it raises when two cells cannot be ordered -/
+def sortedFrom (c : List Cell) (lo hi : Nat) : Ord3 :=
+  match pySortedBy (cellAt c) (List.range' lo (hi - lo)) with
+  | .error _ => .cannot
+  | .ok p => if p = List.range' lo (hi - lo) then .le else .gt
+
+/-- `_in_index_order(n_old)` on the index columns `cols` of a table of `n` rows: the boundary pair
+(last old row, first new row) with `<` only; then, when the new rows agree on all but the last index
+column, one `sorted` of the last column; otherwise the row-by-row `<` loop over the new rows -/
+def inIndexOrderOf (cols : List (List Cell)) (nOld n : Nat) : Ord3 :=
+  match (if 0 < nOld && nOld < n then rowOrd cols (nOld - 1) nOld else Ord3.le) with
+  | .gt => .gt
+  | .cannot => .cannot
+  | .le =>
+    match cols.getLast? with
+    | Option.none => .le
+    | some last =>
+      if cols.dropLast.all (fun c => constFrom c nOld n) then sortedFrom last nOld n
+      else tailOrd cols (n - (nOld + 1)) (nOld + 1)
+
+/-- `_in_index_order(n_old)` -/
+def Table.inIndexOrder (t : Table) (nOld : Nat) : Ord3 :=
+  inIndexOrderOf (t.indexes.map (fun c => match lookupCol t.data c with | .ok b => b | .error _ => []))
+    nOld (match t.len with | .ok n => n | .error _ => 0)
 
 /-! ### index -/
 
@@ -559,16 +590,16 @@ def Table.index (cfg : Cfg) (t : Table) (indx : List Nat) : Except Err Table :=
       | .ok (data, perm) =>
         .ok { t with data := permuteOthers (effIndex cfg t indx) perm data, indexes := effIndex cfg t indx }
 
-/-- `Table.insert`: the rows are appended (`insertRaw`); with the repair an indexed table then looks
-at the rows from the last old one on: still in index order → nothing to do; out of order → sort
-again (`index`), and if that raises `TypeError` restore the lists and drop the index; not
+/-- `Table.insert`: the rows are appended (`insertRaw`); with the repair an indexed table then asks
+`_in_index_order(n_old)` about the new rows: still in index order → nothing to do; out of order →
+sort again (`index`), and if that raises `TypeError` restore the lists and drop the index; not
 comparable → drop the index -/
 def Table.insert (cfg : Cfg) (t : Table) (d : InsertData) : Except Err Table :=
   match t.insertRaw cfg d with
   | .error e => .error e
   | .ok t' =>
     if cfg.resortInsert && !d.isEmpty && !t'.indexes.isEmpty then
-      match t'.inIndexOrder ((match t.len with | .ok n => n | .error _ => 0) - 1) with
+      match t'.inIndexOrder (match t.len with | .ok n => n | .error _ => 0) with
       | .le => .ok t'
       | .cannot => .ok { t' with indexes := [] }
       | .gt =>
@@ -657,12 +688,19 @@ def litSearch (lit : List Nat) : List Nat → Bool
 
 def isDigit (c : Nat) : Bool := 48 ≤ c && c ≤ 57
 
+/-- the formatted number as a pattern: `f'{arg}'` is not escaped, so the `.` of a float (`1.0`) stands
+for any character (no cell of the property holds a newline) -/
+def patPrefix : List Nat → List Nat → Bool
+  | [], _ => true
+  | _ :: _, [] => false
+  | a :: as, b :: bs => (a == 46 || a == b) && patPrefix as bs
+
 /-- `re.search('(\D|^)' + lit + '(\D|$)', s)`; `prevOk` says the position is the start of the
-string or follows a non-digit -/
+string or follows a non-digit.  The pattern is made from the probe of *this* call. -/
 def numSearch (lit : List Nat) : Bool → List Nat → Bool
   | prevOk, [] => prevOk && lit.isEmpty
   | prevOk, c :: cs =>
-    (prevOk && isPrefix lit (c :: cs) &&
+    (prevOk && patPrefix lit (c :: cs) &&
       (match (c :: cs).drop lit.length with | [] => true | d :: _ => !(isDigit d)))
     || numSearch lit (!(isDigit c)) cs
 
@@ -1147,7 +1185,6 @@ def Table.vcol (t : Table) (c : Nat) : List Cell := viewOf (t.base c) t.sel
 def Table.m (t : Table) (N : Nat) : Nat := (t.sel.idx N).length
 
 
-def allIn (lo hi : Nat) (p : Nat → Bool) : Bool := (List.range' lo (hi - lo)).all p
 
 /-- cells of `xs[lo:hi]` are in non-decreasing key order -/
 def sortedSegB (xs : List Cell) (lo hi : Nat) : Bool :=
